@@ -131,6 +131,12 @@ type Node struct {
 	Blocks      []BlockRecord // recorded if Record is true
 	Record      bool
 	Opts        []func(*baseapp.BaseApp)
+
+	// cached query context of the last committed height (read-only use)
+	qctx         sdk.Context
+	qctxOK       bool
+	qctxHeight   int64
+	qctxRestarts int
 }
 
 // NewNode constructs the application on db (a fresh MemDB if nil).
@@ -438,10 +444,14 @@ func digestResponse(res *abci.ResponseFinalizeBlock) string {
 // QueryCtx returns a context over the last committed state (cache-wrapped:
 // writes are discarded).
 func (n *Node) QueryCtx() sdk.Context {
+	if n.qctxOK && n.qctxHeight == n.Height && n.qctxRestarts == n.Restarts {
+		return n.qctx
+	}
 	ctx, err := n.App.CreateQueryContext(0, false)
 	if err != nil {
 		panic(fmt.Errorf("CreateQueryContext: %w", err))
 	}
+	n.qctx, n.qctxOK, n.qctxHeight, n.qctxRestarts = ctx, true, n.Height, n.Restarts
 	return ctx
 }
 
